@@ -1938,6 +1938,13 @@ add_boundary_inputs(const ldb_comparator_t *icmp,
        largest_key, otherwise we're done. */
     if (file != NULL) {
       ldb_vector_push(compaction_files, file);
+
+      /* A well-formed file has largest >= smallest > largest_key. If its
+         bounds are inverted (metadata derived from corrupted table data)
+         the search would find the same file again, forever. */
+      if (ldb_compare(icmp, &file->largest, &largest_key) <= 0)
+        break;
+
       largest_key = file->largest;
     } else {
       search = 0;
